@@ -2219,9 +2219,10 @@ def k40_state_belongs_to_the_instance(core, rep, classes=('Solver', 'DependencyT
         if init is not None:
             for x in ast.walk(init):
                 if isinstance(x, (ast.Assign, ast.AnnAssign)):
-                    for t in (x.targets if isinstance(x, ast.Assign) else [x.target]):
-                        if isinstance(t, ast.Attribute) and self_attr(t):
-                            own.add(t.attr)
+                    for t0 in (x.targets if isinstance(x, ast.Assign) else [x.target]):
+                        for t in ast.walk(t0):
+                            if isinstance(t, ast.Attribute) and self_attr(t) and isinstance(t.ctx, ast.Store):
+                                own.add(t.attr)
         n += len(methods)
         for nm, st in sorted(shared.items()):
             if nm in own:
